@@ -26,9 +26,6 @@ type Controller interface {
 // while no knut code is running.
 var Ctl Controller
 
-// Calls counts dynamic range-over-map statements executed (all sites).
-var Calls int64
-
 type Entry[K comparable, V any] struct {
 	K K
 	m map[K]V
@@ -51,7 +48,6 @@ type keyed[K comparable] struct {
 
 // Iter returns a snapshot of the keys of m in controller-chosen order.
 func Iter[K comparable, V any](m map[K]V, site string) []Entry[K, V] {
-	Calls++
 	n := len(m)
 	if n == 0 {
 		return nil
